@@ -73,14 +73,24 @@ class CountingHandler(object):
         self.failing = set()      # urls that currently fail
         self.fail_once = set()
 
+    # "any failure of a handler": the exception class varies from call to call
+    FAILURES = [IOError, ValueError, KeyError, TypeError, AttributeError, RuntimeError]
+
+    def _fail(self, what, uri):
+        exc = self.FAILURES[len(self.calls) % len(self.FAILURES)]
+        if exc is ValueError:
+            import json
+            json.loads("<html>503 " + what + "</html>")       # a JSONDecodeError, as a real handler would produce
+        raise exc("handler told to %s for %s" % (what, uri))
+
     def __call__(self, uri):
         import copy
         self.calls.append(uri)
         if uri in self.fail_once:
             self.fail_once.discard(uri)
-            raise IOError("handler told to fail once for %s" % uri)
+            self._fail("fail once", uri)
         if uri in self.failing:
-            raise IOError("handler told to fail for %s" % uri)
+            self._fail("fail", uri)
         if uri not in self.docs:
             raise KeyError(uri)
         return copy.deepcopy(self.docs[uri])
